@@ -205,4 +205,35 @@ theorem nested_list_of_optional_rejected :
               some [⟨[120], .list (.list (.opt (.prim [105, 110, 116]))), .absent⟩]⟩],
              consts := [], fns := [], docs := [] } = [.listOfOptional] := by decide
 
+/-! ### The regenerated tables still contain the names the generated SDKs rely on
+
+`Gen/Rules.lean` is regenerated from `_verify_symbol_table` on every run; an entry removed from the
+source tables breaks these table theorems (and the oracle, which uses a frozen copy of the tables,
+then exhibits an accepted meta-model using the name). -/
+
+/-- member names used by the generated SDKs (`descend`, `accept`, `transform`, `type_name`, …) are reserved -/
+theorem sdk_member_names_reserved :
+    ∀ n ∈ ([[100, 101, 115, 99, 101, 110, 100], [100, 101, 115, 99, 101, 110, 100, 95, 111, 110, 99, 101], [97, 99, 99, 101, 112, 116], [116, 114, 97, 110, 115, 102, 111, 114, 109], [116, 121, 112, 101, 95, 110, 97, 109, 101], [112, 114, 111, 112, 101, 114, 116, 121, 95, 110, 97, 109, 101], [109, 97, 116, 99, 104], [109, 111, 100, 101, 108, 95, 116, 121, 112, 101], [103, 101, 116, 95, 109, 111, 100, 101, 108, 95, 116, 121, 112, 101], [115, 101, 116, 95, 109, 111, 100, 101, 108, 95, 116, 121, 112, 101], [115, 101, 116, 95, 101, 110, 104, 97, 110, 99, 101, 109, 101, 110, 116], [103, 101, 116, 95, 101, 110, 104, 97, 110, 99, 101, 109, 101, 110, 116], [101, 110, 104, 97, 110, 99, 101, 109, 101, 110, 116]] : List Text),
+      n ∈ Gen.Rules.reservedMemberNames := by decide
+
+/-- type names used by the generated SDKs (`Class`, `Visitor`, `Path`, `Error`, …; lower-cased) are reserved -/
+theorem sdk_type_names_reserved :
+    ∀ n ∈ ([[97, 97, 115], [97, 99, 99, 101, 112, 116], [99, 111, 110, 116, 101, 120, 116], [99, 108, 97, 115, 115], [101, 114, 114, 111, 114], [101, 114, 114, 111, 114, 115], [105, 99, 108, 97, 115, 115], [105, 118, 105, 115, 105, 116, 111, 114], [106, 115, 111, 110, 105, 122, 97, 116, 105, 111, 110], [112, 97, 116, 104], [115, 116, 114, 105, 110, 103, 105, 102, 105, 99, 97, 116, 105, 111, 110], [116, 114, 97, 110, 115, 102, 111, 114, 109], [116, 114, 97, 110, 115, 102, 111, 114, 109, 101, 114], [118, 101, 114, 105, 102, 105, 99, 97, 116, 105, 111, 110], [118, 105, 115, 105, 116], [118, 105, 115, 105, 116, 97, 116, 105, 111, 110], [118, 105, 115, 105, 116, 111, 114], [109, 97, 116, 99, 104], [99, 111, 110, 115, 116, 97, 110, 116, 115], [109, 111, 100, 101, 108, 95, 116, 121, 112, 101], [101, 110, 104, 97, 110, 99, 101, 109, 101, 110, 116], [101, 110, 104, 97, 110, 99, 101, 100], [100, 101, 115, 99, 101, 110, 116], [105, 116, 101, 114, 97, 116, 111, 114], [114, 101, 99, 111, 114, 100], [112, 97, 114, 116, 105, 97, 108], [114, 101, 113, 117, 105, 114, 101, 100], [114, 101, 97, 100, 111, 110, 108, 121], [112, 105, 99, 107], [111, 109, 105, 116]] : List Text),
+      n ∈ Gen.Rules.reservedTypeNames := by decide
+
+/-- a cross-section of keywords of the target languages is reserved for types and for members -/
+theorem target_keywords_reserved :
+    ∀ n ∈ ([[99, 108, 97, 115, 115], [102, 111, 114], [119, 104, 105, 108, 101], [114, 101, 116, 117, 114, 110], [105, 102], [101, 108, 115, 101], [105, 110, 116], [102, 108, 111, 97, 116], [98, 111, 111, 108], [115, 116, 114, 105, 110, 103], [110, 97, 109, 101, 115, 112, 97, 99, 101], [105, 110, 116, 101, 114, 102, 97, 99, 101], [105, 109, 112, 111, 114, 116], [112, 97, 99, 107, 97, 103, 101], [102, 117, 110, 99], [118, 97, 114], [115, 116, 114, 117, 99, 116], [115, 119, 105, 116, 99, 104], [99, 97, 115, 101], [100, 101, 102, 97, 117, 108, 116], [110, 101, 119], [100, 101, 108, 101, 116, 101], [112, 117, 98, 108, 105, 99], [112, 114, 105, 118, 97, 116, 101], [115, 116, 97, 116, 105, 99], [118, 111, 105, 100], [100, 101, 102], [108, 97, 109, 98, 100, 97], [121, 105, 101, 108, 100], [97, 115, 121, 110, 99], [97, 119, 97, 105, 116], [102, 117, 110, 99, 116, 105, 111, 110], [116, 121, 112, 101, 111, 102], [105, 110, 115, 116, 97, 110, 99, 101, 111, 102], [111, 98, 106, 101, 99, 116], [98, 121, 116, 101, 115], [98, 121, 116, 101, 97, 114, 114, 97, 121], [115, 116, 114]] : List Text),
+      n ∈ Gen.Rules.reservedTypeNames ∧ n ∈ Gen.Rules.reservedMemberNames := by decide +kernel
+
+/-- the reserved prefixes: `I_` and `Must_` for types, `mutable` for members, `over…or_empty`/`…orempty` for methods -/
+theorem reserved_prefixes :
+    Gen.Rules.typePrefixes = [[73, 95], [77, 117, 115, 116, 95]] ∧ Gen.Rules.memberPrefix = [109, 117, 116, 97, 98, 108, 101] ∧
+    Gen.Rules.overPrefix = [111, 118, 101, 114] ∧ Gen.Rules.overSuffixes = [[111, 114, 95, 101, 109, 112, 116, 121], [111, 114, 101, 109, 112, 116, 121]] := by decide
+
+/-- every entry of the tables is lower-case (the implementation asserts it; the checker compares lower-cased names) -/
+theorem tables_lower_case :
+    (∀ n ∈ Gen.Rules.reservedTypeNames, lower n = n) ∧ (∀ n ∈ Gen.Rules.reservedMemberNames, lower n = n) := by
+  decide +kernel
+
 end AasVerif.Props.C06
